@@ -49,7 +49,30 @@ func loadStrings(path string) ([]*textStr, error) {
 // ---------------------------------------------------------------- C06
 
 var c06Props = []string{"name", "summary", "content", "preferredUsername", "source.content"}
-var c06Forms = []string{"single", "tagged1", "map2", "map2-last", "map3", "map2-case"}
+var c06Forms = []string{"single", "tagged1", "map2", "map2-last", "map3", "map2-case", "neighbours"}
+
+// c06Neighbour: what the OTHER text properties of the value hold in the "neighbours" form
+func c06Neighbour(prop string) ap.NaturalLanguageValues {
+	return ap.NaturalLanguageValues{{Ref: "en", Value: ap.Content("voisin de " + prop)}, {Ref: "fr", Value: ap.Content("autre " + prop + " \"q\"")}}
+}
+
+func c06SameEntries(a, b ap.NaturalLanguageValues) bool {
+	if len(a) != len(b) {
+		return false
+	}
+	for _, x := range a {
+		found := false
+		for _, y := range b {
+			if x.Ref == y.Ref && bytes.Equal(x.Value, y.Value) {
+				found = true
+			}
+		}
+		if !found {
+			return false
+		}
+	}
+	return true
+}
 
 func c06Value(prop, form string, text []byte) (ap.Item, []string) {
 	var n ap.NaturalLanguageValues
@@ -71,6 +94,18 @@ func c06Value(prop, form string, text []byte) (ap.Item, []string) {
 	case "map3":
 		n = ap.NaturalLanguageValues{{Ref: "de", Value: ap.Content("fest")}, {Ref: "en", Value: ap.Content(text)}, {Ref: "fr", Value: ap.Content("fixe")}}
 		tags = []string{"de", "en", "fr"}
+	}
+	if form == "neighbours" { // every text property of one value is set at once; the text under test sits in prop
+		a := &ap.Actor{ID: "https://example.com/a", Type: ap.PersonType}
+		val := func(p string) ap.NaturalLanguageValues {
+			if p == prop {
+				return ap.NaturalLanguageValues{{Ref: ap.NilLangRef, Value: ap.Content(text)}}
+			}
+			return c06Neighbour(p)
+		}
+		a.Name, a.Summary, a.Content, a.PreferredUsername = val("name"), val("summary"), val("content"), val("preferredUsername")
+		a.Source = ap.Source{Content: val("source.content"), MediaType: "text/plain"}
+		return a, nil
 	}
 	if prop == "preferredUsername" {
 		return &ap.Actor{ID: "https://example.com/a", Type: ap.PersonType, PreferredUsername: n}, tags
@@ -153,6 +188,15 @@ func c06One(codec, prop, form string, t *textStr) J {
 	}
 	n := c06Read(prop, out)
 	switch form {
+	case "neighbours":
+		if len(n) >= 1 {
+			ev["out"] = hex.EncodeToString(n[0].Value)
+		}
+		for _, p := range c06Props {
+			if p != prop && !c06SameEntries(c06Read(p, out), c06Neighbour(p)) {
+				ev["tagsok"] = false
+			}
+		}
 	case "single", "tagged1":
 		if len(n) >= 1 {
 			ev["out"] = hex.EncodeToString(n[0].Value)
